@@ -80,6 +80,10 @@ def make_case(rng, tier, idx):
         others = [p for p in range(nd) if p != time_pos]
         sensor_pos = int(rng.choice(others)) if rng.random() < 0.7 else others[-1]
         source_pos = int(rng.choice(others)) if rng.random() < 0.7 else others[-1]
+    if kind == 'src' and idx % 4 == 0 and nd >= 3:
+        # sensors first in the observation, the source axis of the mask at its documented default position (-2), which
+        # the caller therefore does not pass
+        time_pos, source_pos, sensor_pos = nd - 1, nd - 2, 0
     obs = _arrange(x, lead_n, {sensor_pos: 'A', time_pos: 'B'})
     kw = {}
 
@@ -94,6 +98,11 @@ def make_case(rng, tier, idx):
     elif kind == 'nosrc':
         mask = np.ascontiguousarray(mask_c[..., 0, :])
     kw['normalize'] = normalize
+    if idx % 2 == 0:
+        # arguments at their documented default are left out by most callers
+        for k_, d_ in (('sensor_dim', -2), ('source_dim', -2), ('time_dim', -1), ('normalize', True)):
+            if k_ in kw and kw[k_] == d_ and type(kw[k_]) == type(d_):
+                del kw[k_]
     obs.setflags(write=False)
     obs_bytes = obs.tobytes()
     if mask is not None:
@@ -157,7 +166,7 @@ def evaluate(rp, rng=None):
         assert oc.shape == (*lead, K, D, D), (oc.shape, (*lead, K, D, D))
     except Exception as e:
         return 'result shape %s is not the documented layout: %s' % (out.shape, e), 'psd:shape', None, None
-    normalize = kw['normalize']
+    normalize = kw.get('normalize', True)
     # independent reference
     if mc is None:
         w = np.full((*lead, 1, Tn), 1.0 / Tn)
